@@ -295,10 +295,14 @@ func (e *Exec) execBlock(it *item) (items []*item, done []PathRes) {
 
 // enter moves along edge pred->succ, evaluating phis.
 func (e *Exec) enter(st *State, fr *Frame, pred, succ *ssa.BasicBlock) []*item {
-	fr.visits[succ.Index]++
-	if fr.visits[succ.Index] > e.unroll {
-		e.h.unwindHit(e, st, fr.fn, succ)
-		return nil
+	if succ.Dominates(pred) { // back edge: succ is a loop header
+		fr.visits[succ.Index]++
+		if fr.visits[succ.Index] > e.unroll {
+			e.h.unwindHit(e, st, fr.fn, succ)
+			return nil
+		}
+	} else if fr.visits[succ.Index] != 0 { // (re-)entering a loop from outside
+		fr.visits[succ.Index] = 0
 	}
 	pi := -1
 	for k, p := range succ.Preds {
@@ -328,7 +332,15 @@ func (e *Exec) feasible(st *State, extra *Term) bool {
 		return false
 	}
 	q := append(append([]*Term(nil), st.pc...), extra)
+	before := e.sol.Stats.Millis
 	r := e.sol.Check(q)
+	if d := e.sol.Stats.Millis - before; d > 500 && debugTrace {
+		where := ""
+		if e.curInstr != nil {
+			where = e.pos(e.curInstr) + ": " + e.curInstr.String()
+		}
+		fmt.Fprintf(os.Stderr, "SLOW feasibility %dms (%s) pc=%d extra-size=%d at %s\n", d, r, len(st.pc), extra.Size(), where)
+	}
 	return r != "unsat"
 }
 
@@ -556,6 +568,13 @@ func (e *Exec) callFunction(st *State, fn *ssa.Function, args []Value, bind []Va
 			return []Outcome{{st: st}}
 		}
 	}
+	if len(fn.Blocks) == 0 && fn.Pkg != nil && fn.Pkg.Pkg.Path() == "sync/atomic" {
+		return e.atomicOp(st, fn, args)
+	}
+	if fn.Pkg != nil && noopPkgs[fn.Pkg.Pkg.Path()] {
+		e.stats.Stubs["noop:"+fn.Pkg.Pkg.Path()]++
+		return e.zeroResults(st, fn)
+	}
 	if len(fn.Blocks) == 0 {
 		if in, ok := e.harnessAPI[fn.Name()]; ok && fn.Pkg != nil && strings.HasPrefix(fn.Name(), "v") {
 			e.curDepth = depth
@@ -724,3 +743,50 @@ func (e *Exec) methodFor(t types.Type, m *types.Func) *ssa.Function {
 }
 
 var debugTrace = os.Getenv("VERIF_TRACE") != ""
+
+// atomicOp models sync/atomic primitives as sequentially consistent loads/stores.
+func (e *Exec) atomicOp(st *State, fn *ssa.Function, args []Value) []Outcome {
+	name := fn.Name()
+	p, ok := args[0].(Ptr)
+	if !ok || p.IsNil() {
+		st.panicVal = e.panicString("nil pointer in atomic op")
+		return []Outcome{{st: st, panicked: true}}
+	}
+	switch {
+	case strings.HasPrefix(name, "Add"):
+		old := e.load(st, p).(BV)
+		nv := BV{e.tc.Add(old.T, args[1].(BV).T)}
+		e.store(st, p, nv)
+		return ret(st, nv)
+	case strings.HasPrefix(name, "Load"):
+		return ret(st, e.load(st, p))
+	case strings.HasPrefix(name, "Store"):
+		e.store(st, p, args[1])
+		return ret(st)
+	case strings.HasPrefix(name, "Swap"):
+		old := e.load(st, p)
+		e.store(st, p, args[1])
+		return ret(st, old)
+	case strings.HasPrefix(name, "CompareAndSwap"):
+		old := e.load(st, p)
+		eq := e.valueEq(st, old, args[1])
+		if eq.IsTrue() {
+			e.store(st, p, args[2])
+			return ret(st, BoolV{eq})
+		}
+		if eq.IsFalse() {
+			return ret(st, BoolV{eq})
+		}
+		e.store(st, p, e.mergeValueOrFail(eq, args[2], old, "atomic CAS"))
+		return ret(st, BoolV{eq})
+	case strings.HasPrefix(name, "And") || strings.HasPrefix(name, "Or"):
+		old := e.load(st, p).(BV)
+		op := "bvand"
+		if strings.HasPrefix(name, "Or") {
+			op = "bvor"
+		}
+		e.store(st, p, BV{e.tc.Bin(op, old.T, args[1].(BV).T)})
+		return ret(st, old)
+	}
+	panic(unsupported("atomic op %s", name))
+}
